@@ -20,8 +20,13 @@ Ev(name) == l <= Len(Trace) /\ Trace[l].ev = name /\ l' = l + 1
 TNew ==
   /\ Ev("new")
   /\ LET e == Trace[l] IN
-     /\ New(e.keys, e.vals, e.hasvals, e.opt)
-     /\ Report(l, "P:C08:outcome", IF e.pan # "" \/ e.err # NewOutcome(e.keys) THEN {1} ELSE {})
+     /\ New(e.keys, e.vals, e.hasvals, e.opt, e.err = "" /\ e.pan = "")
+     /\ Report(l, "P:C08:outcome", IF OutcomeAllowed(e.keys, e.err, e.pan) THEN {} ELSE {1})
+     \* the harness holds an instance iff the call returned one
+     /\ LayerM => Report(l, "M:outcome", LET acc == e.err = "" /\ e.pan = "" IN
+                                         IF acc # (IF acc THEN NewOutcome(e.keys, inst') = ""
+                                                   ELSE ModelAccepts(e.keys, e.vals, e.hasvals, e.opt))
+                                         THEN {1} ELSE {})
      /\ Report(l, "W:firstdisorder",
                IF e.err = "order" /\ "dis" \in DOMAIN e /\ e.dis # FirstDisorder(e.keys) THEN {1} ELSE {})
 
@@ -62,6 +67,8 @@ JudgeK(e) ==
   /\ Report(l, "P:C01:id", KC01id(inst, e))
   /\ Report(l, "P:C02:rget", KC02(inst, e))
   /\ Report(l, "P:C09:search", KC09(inst, e))
+  \* an accepted input whose own keys are not found is "silently mis-indexed" (C08)
+  /\ Report(l, "P:C08:misindexed", KC01get(inst, e) \cup KC01id(inst, e) \cup KC02(inst, e))
   /\ Common(e, Len(inst.ks))
   /\ LayerM => Report(l, "M:answers", MAnswers(inst, e, inst.ks))
 
